@@ -100,7 +100,9 @@ def encoding_provn_value(value):
     elif isinstance(value, datetime.datetime):
         return '"{0}" %% xsd:dateTime'.format(value.isoformat())
     elif isinstance(value, float):
-        return '"%g" %%%% xsd:float' % value
+        # repr() keeps every digit; xsd:double is the datatype this package
+        # maps Python floats to (and back) in all other serializations
+        return '"%r" %%%% xsd:double' % value
     elif isinstance(value, bool):
         return '"%i" %%%% xsd:boolean' % value
     else:
